@@ -358,23 +358,6 @@ def place(cx):
         res.check("OCC-PLACE", "%s.occupancy_at_time = Occupancy(t, %s)" % (cname, slot), ok, fk.mod, rets[0] if rets else fk.fn, norm(rets[0]) if rets else "?", "the occupancy of a static object depends on something else than its placed shape", qualname=fk.name)
 
 
-def _same_state(rd, arg, at, loopvar, depth=0):
-    """arg denotes the loop element, an alias of it, or a shallow/deep copy of it (that may have gained a derived
-    heading)"""
-    if not isinstance(arg, ast.Name) or depth > 4:
-        return False
-    ds = list(rd.defs(arg.id, at))
-    if not ds:
-        return False
-    for d in ds:
-        if d.kind == "for" and arg.id == loopvar:
-            continue
-        if d.kind == "assign" and isinstance(d.node, ast.Name) and _same_state(rd, d.node, d.stmt, loopvar, depth + 1):
-            continue
-        if d.kind == "assign" and isinstance(d.node, ast.Call) and call_name(d.node) in ("copy.copy", "copy.deepcopy", "copy", "deepcopy") and d.node.args and isinstance(d.node.args[0], ast.Name) and (d.node.args[0].id == arg.id and arg.id == loopvar or _same_state(rd, d.node.args[0], d.stmt, loopvar, depth + 1)):
-            continue
-        return False
-    return True
 
 
 # --------------------------------------------------------------------------- OCC-DISPATCH
@@ -623,52 +606,8 @@ def scenario(cx):
         res.check("OCC-SCENARIO", "both coordinates must be inside", ok, fk.mod, f, "predicate of %s" % f.name, "one coordinate inside its interval suffices", qualname=fk.name)
 
 
-def _filter_guard(guards, lv, attr, pname):
-    """guards contain `(pname is None) or (lv.attr == pname)` (possibly with a hasattr conjunct)"""
-    for t, pol in guards:
-        if not pol:
-            continue
-        if isinstance(t, ast.BoolOp) and isinstance(t.op, ast.Or) and len(t.values) == 2:
-            a, b = t.values
-            none_ok = isinstance(a, ast.Compare) and len(a.ops) == 1 and isinstance(a.ops[0], ast.Is) and norm(a.left) == pname and isinstance(a.comparators[0], ast.Constant) and a.comparators[0].value is None
-            parts = b.values if isinstance(b, ast.BoolOp) and isinstance(b.op, ast.And) else [b]
-            eq_ok = False
-            for q in parts:
-                if isinstance(q, ast.Compare) and len(q.ops) == 1 and isinstance(q.ops[0], (ast.Eq, ast.Is)) and {norm(q.left), norm(q.comparators[0])} == {"%s.%s" % (lv, attr), pname}:
-                    eq_ok = True
-                elif isinstance(q, ast.Call) and call_name(q) == "hasattr":
-                    continue
-                else:
-                    if not (isinstance(q, ast.Compare)):
-                        eq_ok = eq_ok
-            if none_ok and eq_ok:
-                return True
-    return False
 
 
-def _query_loop(cx, fk, meth, want_iter, role_param):
-    res = cx.res
-    tp = [a.arg for a in fk.fn.args.args][1]
-    loops = [n for n in walk_no_nested(fk.fn) if isinstance(n, ast.For)]
-    ok = len(loops) == 1 and norm(loops[0].iter) in want_iter
-    res.check("OCC-SCENARIO", "%s runs over %s" % (fk.name, sorted(want_iter)), ok, fk.mod, loops[0] if loops else fk.fn, "for .. in %s" % (norm(loops[0].iter) if loops else "?"), "obstacles of some role are missing from the answer", qualname=fk.name)
-    if not loops:
-        return
-    lv = norm(loops[0].target)
-    calls = [c for c in ast.walk(loops[0]) if isinstance(c, ast.Call) and isinstance(c.func, ast.Attribute) and c.func.attr == meth]
-    res.check("OCC-SCENARIO", "%s asks every obstacle" % fk.name, len(calls) >= 1, fk.mod, loops[0], "no call of %s" % meth, "the per-obstacle answer is not consulted", qualname=fk.name)
-    for c in calls:
-        res.check("OCC-SCENARIO", "%s asks at the queried time step" % fk.name, norm(c.func.value) == lv and [norm(a) for a in c.args] == [tp], fk.mod, c, norm(c), "another time step / obstacle is asked than the one reported", qualname=fk.name)
-    apps = [c for c in ast.walk(loops[0]) if isinstance(c, ast.Call) and isinstance(c.func, ast.Attribute) and c.func.attr == "append"]
-    for c in apps:
-        a = c.args[0] if c.args else None
-        ok = isinstance(a, ast.Call) and a in calls or (isinstance(a, ast.Name))
-        res.check("OCC-SCENARIO", "%s collects the per-obstacle answers" % fk.name, ok, fk.mod, c, norm(c), "something else than the obstacle's own answer is collected", qualname=fk.name)
-        guards = dominating_guards(fk.mod, c, stop=fk.fn)
-        ok = _filter_guard(guards, lv, "obstacle_role", role_param)
-        res.check("OCC-SCENARIO", "%s filters by role: (role is None or obstacle.obstacle_role == role)" % fk.name, ok, fk.mod, c, "append under %s" % sorted(("" if p else "not ") + norm(t) for t, p in guards), "the role filter does not compare the obstacle's role with the requested one", qualname=fk.name)
-        present = any(pol and isinstance(t, ast.Call) and t in calls for t, pol in guards) or any(pol and isinstance(t, ast.Compare) and any(x in calls for x in ast.walk(t)) for t, pol in guards)
-        res.check("OCC-SCENARIO", "%s skips obstacles without an answer" % fk.name, present, fk.mod, c, "append under %s" % sorted(("" if p else "not ") + norm(t) for t, p in guards), "None entries are reported for obstacles outside their horizon", qualname=fk.name)
 
 
 def run(repo, res, tier):
